@@ -131,11 +131,23 @@ public:
       mx = (end - start) * std::pow(2., -r.uniform(0., 12.));
     if (mx > 0 && mn > mx)
       mn = mx / 4.;
+    // limits that are exact power-of-two fractions of the interval sit on
+    // the boundary of the rounding loops of the constructor
+    const bool exact_limits = r.chance(0.3);
+    if (exact_limits) {
+      if (mn > 0)
+        mn = (end - start) * std::ldexp(1., -(int)r.range(3, 40));
+      if (mx > 0)
+        mx = (end - start) * std::ldexp(1., -(int)r.range(0, 12));
+      if (mx > 0 && mn > mx)
+        mn = mx / 4.;
+    }
     c["start"] = dbl_bits(start);
     c["end"] = dbl_bits(end);
     c["min"] = dbl_bits(mn);
     c["max"] = dbl_bits(mx);
-    const int mode = (int)r.below(6);
+    // (mode 6: requests around the configured minimum)
+    const int mode = (int)r.below(mn > 0 ? 7 : 6);
     const int n = (int)r.range(1, tier == "quick" ? 150 : 600);
     Json reqs = Json::array();
     double base = (end - start) * std::pow(2., -r.uniform(0., 10.));
@@ -156,6 +168,11 @@ public:
       case 4: // CFL-like: slowly varying with jitter
         base *= std::exp(r.uniform(-0.1, 0.1));
         q = base * r.uniform(0.8, 1.2);
+        break;
+      case 6: // around the minimum: just below, at, just above it
+        q = mn * (r.chance(0.2) ? 1. : r.uniform(0.3, 3.));
+        if (r.chance(0.7))
+          q = (end - start) * std::pow(2., -r.uniform(0., 10.));
         break;
       default: // large steps: ends quickly, exact powers of two and neighbours
         q = (end - start) * std::ldexp(1., -(int)r.range(0, 6));
